@@ -5,7 +5,7 @@
 (* with it (L2; differences are "drift"), and every property predicate of Props.tla *)
 (* is evaluated on the event (L3; failures are findings).  Nothing stops at the     *)
 (* first problem; the result is printed when the whole trace has been consumed.     *)
-EXTENDS PropsCase, StoreOps
+EXTENDS PropsCase, Registry
 
 VARIABLES l,        \* next trace line
           st,       \* sid -> [lang, s, dead]: the specification's state of every live store
@@ -13,8 +13,9 @@ VARIABLES l,        \* next trace line
           cs,       \* the line of the current case header
           viol,     \* findings (property violations and tool errors)
           drift,    \* conformance differences (L2)
-          cnt       \* property -> number of non-trivial evaluations
-vars == <<l, st, mem, cs, viol, drift, cnt>>
+          cnt,      \* property -> number of non-trivial evaluations
+          reg       \* the specification's registry (Registry.tla) for the top-level API events
+vars == <<l, st, mem, cs, viol, drift, cnt, reg>>
 
 PropIds == {"C01","C02","C03","C04","C05","C06","C07","C08","C09","C10","C11","C12","C13","C14","C15","C16","C17","C18","C19","C20","ood","L2"}
 
@@ -26,7 +27,9 @@ TVQGrams(q) == {}
 E == Rec[l]
 Bump(c, names) ==
   LET RECURSIVE B(_, _)
-      B(cc, ns) == IF ns = <<>> THEN cc ELSE B([cc EXCEPT ![Head(ns)] = @ + 1], Tail(ns))
+      B(cc, ns) == IF ns = <<>> THEN cc
+                   ELSE LET h == Head(ns) IN
+                        B([x \in DOMAIN cc \cup {h} |-> IF x = h THEN (IF h \in DOMAIN cc THEN cc[h] ELSE 0) + 1 ELSE cc[x]], Tail(ns))
   IN B(c, names)
 
 Live(sid) == sid \in DOMAIN st /\ ~st[sid].dead
@@ -52,12 +55,12 @@ Step(res, newst, newdrift) ==
   /\ st'    = newst
   /\ drift' = drift \o newdrift
 
-Skip == Step(NoRes, st, <<>>) /\ UNCHANGED <<mem, cs>>
+Skip == Step(NoRes, st, <<>>) /\ UNCHANGED <<mem, cs, reg>>
 
 TvHeader == E.op \in {"header", "chartable", "endcase"} /\ Skip
-TvCase   == E.op = "case" /\ cs' = l /\ st' = <<>> /\ mem' = <<>> /\ UNCHANGED <<viol, drift, cnt>>
-TvNew    == E.op = "new" /\ Step(NoRes, SetStore(E.sid, [lang |-> E.lang, s |-> NewStore, dead |-> FALSE]), <<>>) /\ UNCHANGED <<mem, cs>>
-TvDrop   == E.op = "drop" /\ Step(NoRes, [x \in DOMAIN st \ {E.sid} |-> st[x]], <<>>) /\ UNCHANGED <<mem, cs>>
+TvCase   == E.op = "case" /\ cs' = l /\ st' = <<>> /\ mem' = <<>> /\ reg' = NoRegistry /\ UNCHANGED <<viol, drift, cnt>>
+TvNew    == E.op = "new" /\ Step(NoRes, SetStore(E.sid, [lang |-> E.lang, s |-> NewStore, dead |-> FALSE]), <<>>) /\ UNCHANGED <<mem, cs, reg>>
+TvDrop   == E.op = "drop" /\ Step(NoRes, [x \in DOMAIN st \ {E.sid} |-> st[x]], <<>>) /\ UNCHANGED <<mem, cs, reg>>
 
 Dead(sid) == SetStore(sid, [st[sid] EXCEPT !.dead = TRUE])
 
@@ -69,25 +72,26 @@ TvAdd ==
   /\ IF Has(E, "panic")
        THEN Step(C01(E, l), Dead(E.sid), <<>>)
        ELSE LET s2 == S_Add(st[E.sid].s, E.id, E.title, E.rating, E.tok) IN
-            Step(C01(E, l), WithS(E.sid, s2),
+            Step(Join2(C01(E, l), Chk(WellFormed(E.tok, FALSE), l, "C15", "record tokenisation is not well formed")),
+                 WithS(E.sid, s2),
                  ProjDrift(s2, l) \o Check(E.ix = st[E.sid].s.nextIx, l, "L2", "record position differs"))
-  /\ UNCHANGED <<mem, cs>>
+  /\ UNCHANGED <<mem, cs, reg>>
 
 TvClear ==
   /\ E.op = "clear" /\ Live(E.sid) /\ ~Has(E, "skipped")
   /\ IF Has(E, "panic") THEN Step(C01(E, l), Dead(E.sid), <<>>)
      ELSE LET s2 == S_Clear(st[E.sid].s) IN Step(C01(E, l), WithS(E.sid, s2), ProjDrift(s2, l))
-  /\ UNCHANGED <<mem, cs>>
+  /\ UNCHANGED <<mem, cs, reg>>
 
 TvLimit ==
   /\ E.op = "limit" /\ Live(E.sid) /\ ~Has(E, "skipped")
   /\ LET s2 == S_SetLimit(st[E.sid].s, E.limit) IN Step(NoRes, WithS(E.sid, s2), ProjDrift(s2, l))
-  /\ UNCHANGED <<mem, cs>>
+  /\ UNCHANGED <<mem, cs, reg>>
 
 TvMarkers ==
   /\ E.op = "markers" /\ Live(E.sid) /\ ~Has(E, "skipped")
   /\ LET s2 == S_SetMarkers(st[E.sid].s, E.l, E.r) IN Step(NoRes, WithS(E.sid, s2), ProjDrift(s2, l))
-  /\ UNCHANGED <<mem, cs>>
+  /\ UNCHANGED <<mem, cs, reg>>
 
 \* the cache after a search, as the specification sees it: an empty query (re)fills it with the list
 \* the code reports, provided that list is one the specification allows (otherwise drift)
@@ -113,6 +117,8 @@ SearchProps(S) ==
          JoinAll([i \in DOMAIN E.hits |-> C05Hit(E.hits[i], E, S, l)]),
          C06Basic(E, S, l), C06Rel(E, S, l), C07Rel(E, S, l),
          C10(E, S, l), C12(E, S, l),
+         IF Has(E, "acc") THEN Res(AccFindings(E, l), <<"C19">>) ELSE NoRes,
+         IF Has(E, "qtok") THEN Chk(WellFormed(E.qtok, TRUE), l, "C15", "query tokenisation is not well formed") ELSE NoRes,
          IF Has(E, "expect") /\ Has(E, "qtok") THEN
            CASE E.expect.prop = "C03" -> C03(E, S, l)
              [] E.expect.prop = "C04" -> C04(E, S, l)
@@ -133,14 +139,100 @@ TvSearch ==
                Check(CacheAllowed(S.s), l, "L2", "cached top-rated list is not a top-`limit` list of the records")
                \o ProjDrift(s2, l))
   /\ mem' = IF Has(E, "tag") /\ Has(E, "hits") THEN [x \in DOMAIN mem \cup {E.tag} |-> IF x = E.tag THEN [hits |-> E.hits, q |-> E.q, sid |-> E.sid] ELSE mem[x]] ELSE mem
-  /\ UNCHANGED cs
+  /\ UNCHANGED <<cs, reg>>
+
+\* C18: the candidate list of the trigram index, against gram sets recomputed from the public tokenisation
+PrepareProps(S) ==
+  IF Has(E, "panic") THEN Join2(C01(E, l), Chk(FALSE, l, "C18", "index preparation panicked"))
+  ELSE IF Len(E.qtok.words) = 0 THEN NoRes
+  ELSE
+  LET s == S.s  n == Len(s.records)  ixs == E.ixs
+      qg == GramSet(E.qtok)
+      shared(i) == Cardinality(GramSet(s.records[i + 1].tok) \cap qg)       \* i: 0-based position
+      sharing == { i \in 0..(n - 1) : shared(i) > 0 }
+      cap == 10 * E.size
+      valid == \A k \in DOMAIN ixs : InRange(ixs[k], n)
+  IN JoinAll(<<
+       Chk(NoDup(ixs), l, "C18", "candidate list contains a position twice"),
+       Chk(valid, l, "C18", "candidate position without a record"),
+       IF valid THEN JoinAll(<<
+         Chk(\A k \in DOMAIN ixs : ixs[k] \in sharing, l, "C18", "candidate shares no gram with the query"),
+         IF Cardinality(sharing) <= cap
+           THEN Chk(SeqRange(ixs) = sharing, l, "C18", "a record sharing a gram is missing from the candidates")
+           ELSE JoinAll(<<
+                  Chk(Len(ixs) = cap, l, "C18", "capped candidate list does not have 10 x size entries"),
+                  Chk(\A k \in 1..(Len(ixs) - 1) : shared(ixs[k]) >= shared(ixs[k + 1]), l, "C18", "candidates are not ordered by shared grams"),
+                  Chk(\A o \in sharing \ SeqRange(ixs) : \A k \in DOMAIN ixs : shared(o) <= shared(ixs[k]), l, "C18",
+                      "an omitted record shares more grams than a listed one") >>) >>)
+       ELSE NoRes,
+       IF Has(E, "acc") THEN Res(AccFindings(E, l), <<"C19">>) ELSE NoRes >>)
+\* L2: the list is an outcome of the specification's index machine
+PrepareDrift(S) ==
+  IF Has(E, "panic") \/ Len(E.qtok.words) = 0 THEN <<>>
+  ELSE LET cands == Candidates(S.s.index, GramSet(E.qtok))
+           byIx(i) == CHOOSE c \in SeqRange(cands) : c.ix = i
+           known == \A k \in DOMAIN E.ixs : \E c \in SeqRange(cands) : c.ix = E.ixs[k]
+       IN Check(known /\ IsTopK([k \in DOMAIN E.ixs |-> byIx(E.ixs[k])], cands, E.size * CapFactor), l, "L2",
+                "candidate list is not an outcome of Trigram.tla's index machine")
+
+TvPrepare ==
+  /\ E.op = "prepare" /\ Live(E.sid) /\ ~Has(E, "skipped")
+  /\ LET S == st[E.sid] IN
+     IF Has(E, "panic") THEN Step(PrepareProps(S), Dead(E.sid), <<>>)
+     ELSE Step(PrepareProps(S), st, PrepareDrift(S) \o ProjDrift(S.s, l))
+  /\ UNCHANGED <<mem, cs, reg>>
+
+\* ---- top-level API (lib.rs): C20
+BufOf(id)  == E.bufs[CHOOSE k \in DOMAIN E.bufs : E.bufs[k].id = id].hits
+BufIds     == { E.bufs[k].id : k \in DOMAIN E.bufs }
+\* the stand-alone store driven in lock-step for registry id `id` is store 1000 + id of the same case
+Twin(id)   == 1000 + id
+TwinMatches(id, r) ==
+  /\ Twin(id) \in DOMAIN st /\ ~st[Twin(id)].dead
+  /\ st[Twin(id)].lang = r.lang
+  /\ PlainRecords(st[Twin(id)].s) = PlainRecords(r.s)
+  /\ st[Twin(id)].s.limit = r.s.limit /\ st[Twin(id)].s.dividers = r.s.dividers
+
+RegProps(reg2, isSearch) ==
+  JoinAll(<<
+    Chk(~Has(E, "panic"), l, "C01", "top-level call panicked"),
+    Chk(\A k \in DOMAIN E.bufs : ~Has(E.bufs[k], "panic"), l, "C20", "a live id has no result buffer"),
+    Chk(BufIds = DOMAIN reg2, l, "C20", "live ids differ from the ids created and not destroyed"),
+    IF BufIds = DOMAIN reg2 THEN
+      JoinAll(<<
+        \* every buffer except the one of a run_search is what the specification's registry holds (frame)
+        Chk(\A j \in DOMAIN reg2 : (j # E.id \/ ~isSearch) => BufOf(j) = reg2[j].buf, l, "C20",
+            "a result buffer changed without a search on its id (or a re-created id did not start empty)"),
+        IF isSearch THEN
+          LET tag == "sa" \o ToString(E.id) IN
+          ChkIf(tag \in DOMAIN mem /\ mem[tag].q = E.q /\ mem[tag].sid = Twin(E.id) /\ TwinMatches(E.id, reg2[E.id]),
+                BufOf(E.id) = mem[tag].hits, l, "C20", "result buffer differs from what a stand-alone store returns")
+        ELSE NoRes >>)
+    ELSE NoRes >>)
+
+TvReg ==
+  /\ E.op \in {"r_create", "r_destroy", "r_add", "r_limit", "r_markers", "r_search"}
+  /\ LET valid == IF E.op = "r_create" THEN ~Known(reg, E.id) ELSE Known(reg, E.id) IN
+     IF ~valid \/ Has(E, "panic")
+       THEN /\ Step(IF valid THEN Chk(FALSE, l, "C01", "top-level call panicked") ELSE Res(<<>>, <<"ood">>), st, <<>>)
+            /\ reg' = reg
+       ELSE LET reg2 ==
+                  CASE E.op = "r_create"  -> R_Create(reg, E.id, E.lang)
+                    [] E.op = "r_destroy" -> R_Destroy(reg, E.id)
+                    [] E.op = "r_add"     -> R_Add(reg, E.id, E.rid, E.title, E.rating, [chars |-> <<>>, words |-> <<>>])
+                    [] E.op = "r_limit"   -> R_SetLimit(reg, E.id, E.limit)
+                    [] E.op = "r_markers" -> R_Markers(reg, E.id, E.l, E.r)
+                    [] E.op = "r_search"  -> PutId(reg, E.id, [reg[E.id] EXCEPT !.buf = IF E.id \in BufIds THEN BufOf(E.id) ELSE <<>>])
+            IN /\ Step(RegProps(reg2, E.op = "r_search"), st, <<>>)
+               /\ reg' = reg2
+  /\ UNCHANGED <<mem, cs>>
 
 TvNext ==
   /\ l <= NRec
   /\ l' = l + 1
-  /\ (TvHeader \/ TvCase \/ TvNew \/ TvDrop \/ TvSkipped \/ TvAdd \/ TvClear \/ TvLimit \/ TvMarkers \/ TvSearch)
+  /\ (TvHeader \/ TvCase \/ TvNew \/ TvDrop \/ TvSkipped \/ TvAdd \/ TvClear \/ TvLimit \/ TvMarkers \/ TvSearch \/ TvPrepare \/ TvReg)
 
-TvInit == /\ l = 1 /\ st = <<>> /\ mem = <<>> /\ cs = 0 /\ viol = <<>> /\ drift = <<>>
+TvInit == /\ l = 1 /\ reg = NoRegistry /\ st = <<>> /\ mem = <<>> /\ cs = 0 /\ viol = <<>> /\ drift = <<>>
           /\ cnt = [p \in PropIds |-> 0]
 TvSpec == TvInit /\ [][TvNext]_vars
 
